@@ -55,14 +55,14 @@ func (c Command) Byte() byte {
 // ValidateType will check if the supplied string starts with the given command type and return an error if its not.
 func (c Command) ValidateType(data []byte) error {
 	if !c.IsOfType(data) {
-		return errors.Errorf("Invalid command type. Expected %v, got, %v", c, data[0])
+		return errors.Errorf("Invalid command type. Expected %v, got, %q", c, data)
 	}
 	return nil
 }
 
 // IsOfType will check if the supplied string starts with the given command type
 func (c Command) IsOfType(data []byte) bool {
-	if data == nil || len(data) < 0 {
+	if len(data) == 0 {
 		return false
 	}
 	if data[0] == c.Code {
